@@ -26,13 +26,14 @@ demo = os.path.join(wt, "demo.py")
 assert os.path.exists(patch) and os.path.exists(demo), "missing deliverables"
 log = {}
 sh("git checkout -- .", cwd=wt)
-rc0, out0 = sh(f"{PY} -W ignore demo.py", cwd=wt, env={"PYTHONPATH": wt})
+DEMO = f"python3-vt demo.py" if pid == "C20" else f"{PY} -W ignore demo.py"
+rc0, out0 = sh(DEMO, cwd=wt, env={"PYTHONPATH": wt, "REPO_ROOT": wt})
 log["demo_without_change_rc"] = rc0
 rc, out = sh(f"git apply {patch}", cwd=wt)
 assert rc == 0, out
 rct, outt = sh(f"{PY} -m pytest -q -p no:cacheprovider 2>&1 | tail -1", cwd=wt, env={"PYTHONPATH": wt})
 log["tests_with_change"] = outt.strip()
-rc1, out1 = sh(f"{PY} -W ignore demo.py", cwd=wt, env={"PYTHONPATH": wt})
+rc1, out1 = sh(DEMO, cwd=wt, env={"PYTHONPATH": wt, "REPO_ROOT": wt})
 log["demo_with_change_rc"] = rc1
 log["demo_with_change_output"] = out1[-600:]
 sh("git checkout -- .", cwd=wt)
